@@ -73,6 +73,16 @@ type Sim struct {
 	LogYields bool
 	// Sites counts calls per storage call site (when non-nil).
 	Sites map[string]int
+	// ChanCap, when positive, caps the buffer of every large buffered channel the code under test makes.
+	ChanCap int
+}
+
+// ChanCap returns the buffer size for a channel the code under test makes with a large literal size.
+func ChanCap(n int) int {
+	if s := S; s != nil && s.ChanCap > 0 && n > s.ChanCap {
+		return s.ChanCap
+	}
+	return n
 }
 
 // FailSpec makes the nth (0-based) call at a site fail once.
